@@ -175,6 +175,9 @@ func (c07) Generate(idx int, r *core.Rand, tier string) core.Script {
 		s.Msgs = append(s.Msgs, m)
 	}
 	nd := w.Range(1, 8)
+	if w.Chance(1, 300) { // a long-lived connection
+		nd = w.Range(40, 160)
+	}
 	for i := 0; i < nd; i++ {
 		d := c07Delivery{Msg: w.Intn(nm), Other: w.Intn(nm)}
 		m := s.Msgs[d.Msg]
